@@ -19,6 +19,7 @@ type Gen struct {
 	R     *R
 	W     *World
 	Tx    bool // transaction mode: storage available through `acct`
+	Edgy  bool // also emit operations that may fail at run time with user errors
 	sb    strings.Builder
 	ind   int
 	vars  []*Var
@@ -263,10 +264,51 @@ func (g *Gen) expr(t *Type, depth int) string {
 	return g.lit(t, depth)
 }
 
+// edgyNum: operations that legitimately fail at run time with user errors (overflow, nil force
+// unwrap, out-of-bounds index, failed force cast, division by zero).
+func (g *Gen) edgyNum(t *Type, depth int) string {
+	r := g.R
+	switch r.IntN(6) {
+	case 0:
+		g.feat("edgy_force_unwrap")
+		return "(" + g.expr(Opt(t), depth+1) + ")!"
+	case 1:
+		if t.Name == "Int" {
+			for _, v := range g.varsOf(func(v *Var) bool { return v.T.K == KArr && v.T.Elem.Eq(TInt) }) {
+				g.feat("edgy_index")
+				return v.Name + "[" + fmt.Sprint(r.IntN(4)) + "]"
+			}
+		}
+	case 2:
+		if t.Name == "Int8" || t.Name == "UInt8" || t.Name == "Int64" || t.Name == "UInt64" {
+			g.feat("edgy_overflow")
+			return "(" + g.expr(t, depth+1) + " " + pick(r, []string{"*", "+", "-"}) + " " + g.expr(t, depth+1) + ")"
+		}
+	case 3:
+		g.feat("edgy_force_cast")
+		src := pick(r, []*Type{t, t, TString, TBool})
+		return "(" + g.anyOf(src, depth+1) + " as! " + t.Src() + ")"
+	case 4:
+		if t.Name == "Int" {
+			g.feat("edgy_division")
+			return "(" + g.expr(t, depth+1) + " / (" + g.expr(t, depth+1) + " % 3))"
+		}
+	case 5:
+		if t.Name != "Int" && !isFixed(t) {
+			g.feat("edgy_conversion")
+			return t.Name + "(" + g.expr(TInt, depth+1) + ")"
+		}
+	}
+	return g.lit(t, depth)
+}
+
 func (g *Gen) numExpr(t *Type, depth int) string {
 	r := g.R
 	if depth > 3 {
 		return g.lit(t, depth)
+	}
+	if g.Edgy && r.IntN(10) == 0 {
+		return g.edgyNum(t, depth)
 	}
 	isInt := t.Name == "Int"
 	switch r.IntN(12) {
@@ -1000,6 +1042,13 @@ func (g *Gen) resourceOp() {
 				return
 			}
 		}
+		if v.Mutable {
+			n := g.fresh("q")
+			g.line("var %s: %s %s", n, v.T.Src(), g.resExpr(v.T))
+			g.declare(n, v.T, true)
+			g.feat("res_swap")
+			g.line("%s <-> %s", v.Name, n)
+		}
 	case 2:
 		if v.T.K == KRes && v.T.Name == "R1" {
 			g.feat("res_nested_take")
@@ -1118,7 +1167,7 @@ func qualify(body string) string {
 
 // Script generates a script whose declarations are at top level.
 func Script(r *R, w *World, nstmts int) *Program {
-	g := &Gen{R: r, W: w, Features: map[string]int{}}
+	g := &Gen{R: r, W: w, Features: map[string]int{}, Edgy: r.IntN(4) == 0}
 	w.InContract = false
 	g.ind = 1
 	g.depth = 1
@@ -1148,7 +1197,7 @@ func ContractSource(w *World) string {
 
 // Transaction generates a transaction over the deployed contract C0 at 0x1.
 func Transaction(r *R, w *World, nstmts int) *Program {
-	g := &Gen{R: r, W: w, Tx: true, Features: map[string]int{}}
+	g := &Gen{R: r, W: w, Tx: true, Features: map[string]int{}, Edgy: r.IntN(4) == 0}
 	g.ind = 2
 	g.depth = 1
 	for i := 0; i < nstmts; i++ {
